@@ -239,4 +239,68 @@ theorem inputs_from_tx_spend_matching_outputs (H160 : Bytes → Bytes) (txidOf :
   fromTxLoop_spec _ _ _ 0 tx t ok hh
 
 
+
+/-- the converse of `fromTxLoop_spec` when no error is reported: every output paying to the key hash is spent by one of
+    the added inputs -/
+theorem fromTxLoop_complete (h prevID : Bytes) (hid : prevID.length = 32) (outs : List Output) :
+    ∀ (base : Nat) (tx t : Tx), fromTxLoop h prevID base outs tx = some (t, true) →
+      ∃ added, t.inputs = tx.inputs ++ added ∧
+        ∀ (k : Nat) (o : Output), outs[k]? = some o → publicKeyHash o.script = some (.ok h) →
+          ∃ i ∈ added, i.vout = base + k ∧ i.prevSats = o.sats ∧ i.prevScript = some o.script := by
+  induction outs with
+  | nil =>
+    intro base tx t hh
+    simp [fromTxLoop] at hh
+    exact ⟨[], by simp [hh], fun k o hk => by simp at hk⟩
+  | cons o' os ih =>
+    intro base tx t hh
+    unfold fromTxLoop at hh
+    cases hp' : publicKeyHash o'.script with
+    | none => simp [hp'] at hh
+    | some r =>
+      cases r with
+      | ok p =>
+        simp only [hp'] at hh
+        by_cases hph : (p == h) = true
+        · rw [if_pos hph] at hh
+          simp only [fromUTXOs, hid, ne_eq, not_true_eq_false, if_false] at hh
+          obtain ⟨added, ht, hall⟩ := ih (base + 1) _ t hh
+          refine ⟨({ prevTxID := prevID, vout := base, unlocking := none, sequence := 0xFFFFFFFF, prevSats := o'.sats, prevScript := some o'.script } : Input) :: added, by simp [ht], ?_⟩
+          intro k o hk hp
+          cases k with
+          | zero =>
+            simp at hk; subst hk
+            exact ⟨_, List.mem_cons_self, by simp, rfl, rfl⟩
+          | succ k =>
+            obtain ⟨i, hi, hv, rest⟩ := hall k o (by simpa using hk) hp
+            exact ⟨i, List.mem_cons_of_mem _ hi, by omega, rest⟩
+        · rw [if_neg hph] at hh
+          obtain ⟨added, ht, hall⟩ := ih (base + 1) tx t hh
+          refine ⟨added, ht, ?_⟩
+          intro k o hk hp
+          cases k with
+          | zero =>
+            simp at hk; subst hk
+            rw [hp'] at hp
+            simp at hp
+            simp [hp] at hph
+          | succ k =>
+            obtain ⟨i, hi, hv, rest⟩ := hall k o (by simpa using hk) hp
+            exact ⟨i, hi, by omega, rest⟩
+      | errEmpty => simp [hp'] at hh
+      | errNotP2PKH => simp [hp'] at hh
+      | errDecode => simp [hp'] at hh
+
+/-- **Tx.AddP2PKHInputsFromTx, completeness**: when it reports no error (and the previous id has its 32 bytes), every output
+    of the previous transaction whose script pays to HASH160 of the key has become an input with that output's index,
+    value and script. -/
+theorem inputs_from_tx_cover_matching_outputs (H160 : Bytes → Bytes) (txidOf : Tx → Bytes) (tx pvs t : Tx) (key : Bytes)
+    (hid : (txidOf pvs).length = 32) (hh : addP2PKHInputsFromTx H160 txidOf tx pvs key = some (t, true)) :
+    ∃ added, t.inputs = tx.inputs ++ added ∧
+      ∀ (k : Nat) (o : Output), pvs.outputs[k]? = some o → publicKeyHash o.script = some (.ok (H160 key)) →
+        ∃ i ∈ added, i.vout = k ∧ i.prevSats = o.sats ∧ i.prevScript = some o.script := by
+  obtain ⟨added, ht, hall⟩ := fromTxLoop_complete _ _ hid _ 0 tx t hh
+  exact ⟨added, ht, fun k o hk hp => by simpa using hall k o hk hp⟩
+
+
 end GoBT.C12
